@@ -199,8 +199,8 @@ def vseg? (sg : String) : Option VOp :=
   | ["aset", a, i, k] => do pure (.aset (← a? a) (← int? i) (← int? k))
   | ["alist", a] => do pure (.alist (← a? a))
   | ["nscale", a, k] | ["nscaleb", a, k] => do pure (.nscale (← a? a) (← int? k))
-  | ["nset", a, i, k] | ["nsetb", a, i, k] => do pure (.nset (← a? a) (← int? i) (← int? k))
-  | ["nget", a, i] | ["ngetb", a, i] => do pure (.nget (← a? a) (← int? i))
+  | ["nset", a, i, k] | ["nsetb", a, i, k] | ["nsetc", a, i, k] => do pure (.nset (← a? a) (← int? i) (← int? k))
+  | ["nget", a, i] | ["ngetb", a, i] | ["ngetc", a, i] => do pure (.nget (← a? a) (← int? i))
   | ["nnorms", a] | ["nnormsb", a] => do pure (.nnorms (← a? a))
   | ["naxpy", a, k, b] | ["naxpyb", a, k, b] => do pure (.naxpy (← a? a) (← int? k) (← a? b))
   | ["nadd", a, b] | ["naddb", a, b] => do pure (.nadd (← a? a) (← a? b))
